@@ -14,7 +14,7 @@ import json
 
 from hypothesis import strategies as st
 
-from ..core import HarnessError, fmt_exc, innermost_pkg_frame, run_given, short
+from ..core import HarnessError, fmt_exc, innermost_pkg_frame, run_given, with_spellings, short
 from ..gen import parsers as P
 from ..gen import types as G
 from . import _rt
@@ -470,7 +470,7 @@ def run_shard(spec, ctx):
     warnings.simplefilter("ignore")
     if spec.get("kind") == "required":
         return required_family(ctx)
-    run_given(ctx, case_strategy(spec["depth"]), body(ctx), spec["n"])
+    run_given(ctx, with_spellings(case_strategy(spec["depth"])), body(ctx), spec["n"])
 
 
 def health(tier, evaluations, nontrivial, classes):
